@@ -318,6 +318,15 @@ func (p *c03) build(i int) (*Program, *c03gen) {
 		frag.Body = append([]gen.Node{&gen.NText{S: head, ID: "f0"}}, frag.Body...)
 	}
 	t.Body = append(t.Body, &gen.NText{S: "|", ID: "c03tail2"}, &gen.NInclude{Tpl: &gen.EStr{S: "c03frag"}}, &gen.NText{S: "|", ID: "c03tail3"})
+	// ... and in a third of the programs the very last byte of the main template is a lone '{' again (the includes
+	// above took that place from the tail chosen earlier), in some the fragment's too
+	if g.r.Intn(3) == 0 {
+		tails := []string{"{", "end{", " {", "%{", "}{", "é{", "\n{", "{ {"}
+		t.Body = append(t.Body, &gen.NText{S: tails[g.r.Intn(len(tails))], ID: "tail2"})
+		if len(frag.Body) > 1 && g.r.Intn(2) == 0 {
+			frag.Body = append(frag.Body, &gen.NText{S: tails[g.r.Intn(len(tails))], ID: "f3"})
+		}
+	}
 	return &Program{Templates: map[string]*gen.Template{"main": t, "c03lay": lay, "c03empty": {Name: "c03empty"}, "c03frag": frag}, Main: "main", Ctx: ctx}, g
 }
 
